@@ -67,9 +67,9 @@ Proof.
   unfold divZ, div. fold (invZ sb sg cb p). split.
   - intros fl r. unfold invZ in Hi. destruct (inv (mk_modular sb sg cb p) fl b) as [ib | ] eqn:E; [ | discriminate ].
     destruct (Hi fl ib E) as [Hc Hm]. intros [= <-].
-    change (mul (mk_modular sb sg cb p) ib a) with (mulZ sb sg cb p ib a). rewrite (mul_exact sb sg cb p HP ib a Hc Ha).
+    change (mul (mk_modular sb sg cb p) a ib) with (mulZ sb sg cb p a ib). rewrite (mul_exact sb sg cb p HP a ib Ha Hc).
     unfold canon in *. split; [ apply Z.mod_pos_bound; lia | ].
-    rewrite Z.mul_mod_idemp_l by lia. replace (ib * a * b) with (a * (b * ib)) by ring.
+    rewrite Z.mul_mod_idemp_l by lia. replace (a * ib * b) with (a * (b * ib)) by ring.
     rewrite <- Z.mul_mod_idemp_r, Hm, Z.mul_1_r by lia. apply Z.mod_small; lia.
   - exists fuel. unfold invZ in Hf. destruct (inv (mk_modular sb sg cb p) fuel b); [ discriminate | contradiction ].
 Qed.
